@@ -33,6 +33,10 @@ def gen_case(rng, cid, mode):
         for m in ("#loop_i", "#endloop_i", "#loop_j", "#endloop_j", "#exit", "#error"):
             hs.append(W.norm_handler({"kind": "imm", "sel": S.node("s", [S.cap(m, "m", 1)])}))
         hs.append(W.norm_handler({"kind": "imm", "sel": S.node("s", [S.cap("c", "c", 1), S.cap("i", "i", 0), S.cap("j", "j", 0)])}))
+    if rng.random() < 0.35:
+        # somebody replaces the returned value, activated AFTER the observers: they report the value actually returned
+        fn = rng.choice([x for x in fns if x != "s"] or ["f"])
+        hs.append(W.norm_handler({"kind": "imm", "sel": S.node(fn, [S.cap("#value", "v", 1)]), "ovr": {"k": "const", "c": rng.randint(700, 799)}}))
     return {"id": cid, "script": sc, "arg": 0, "handlers": hs}
 
 
